@@ -26,7 +26,7 @@ PRACTICE = os.path.join(core.REPO, "tests", "practice")
 def shards(tier):
     specs = [{"part": "practice", "i": i, "n": 4} for i in range(4)]
     k = 16
-    per = (1600 if tier == "quick" else 60000) // k
+    per = (2400 if tier == "quick" else 60000) // k
     for i in range(k):
         specs.append({"part": "random", "i": i, "examples": per, "variant": ["plain", "files", "includes", "bytes"][i % 4]})
     return specs
